@@ -252,18 +252,19 @@ def format_libtensor_contraction(tensors: list[str], factors: list[str],
 
 def translate_adcc_names(name: str, indices: tuple[Index]) -> str:
     """Translates tensor names specifically for adcc."""
-    if name.startswith(tensor_names.eri):
-        space = "".join(s.space[0] for s in indices)
+    # the name is the longname of the tensor: {name}_{space}
+    space = "".join(s.space[0] for s in indices)
+    if name == f"{tensor_names.eri}_{space}":
         return f"hf.{space}"
-    elif name.startswith(tensor_names.fock):
-        space = "".join(s.space[0] for s in indices)
+    elif name == f"{tensor_names.fock}_{space}":
         return f"hf.f{space}"
     return name
 
 
 def translate_libadc_names(name: str, indices: tuple[Index]) -> str:
-    if name.startswith(tensor_names.eri):
-        space = "".join(s.space[0] for s in indices)
+    # the name is the longname of the tensor: {name}_{space}
+    space = "".join(s.space[0] for s in indices)
+    if name == f"{tensor_names.eri}_{space}":
         return f"i_{space}"
     elif name.startswith("t2eri"):
         _, n = name.split("_")
